@@ -41,6 +41,7 @@ def kind_text(kind, i, rot=0):
         'reportstyle': [">>> x = p(%d, 'o1')" % a, 'o1', '>>> # xdoctest: +REPORT_CDIFF, -REPORT_UDIFF'],
         'trail': [">>> print('b')  # xdoctest: +REQUIRES(env:XDV_E==0)", 'a', 'b', ">>> print('a')  # xdoctest: +REQUIRES(env:XDV_E==1)"],
         'swapout': ['>>> import sys, io', ">>> x = p(%d, 'o1')" % a, 'o1', '>>> sys.stdout = io.StringIO()'],
+        'warns': ['>>> import warnings', ">>> warnings.warn('only a warning %d')" % a, ">>> x = p(%d, 'o1')" % a, 'o1'],
         'filters': ['>>> import warnings', ">>> warnings.simplefilter('error')", ">>> x = p(%d, 'o1')" % a, 'o1'],
     }
     return t[kind]
@@ -59,7 +60,7 @@ def kind_trace(kind, i, env=1, named=False):
 def kind_stdout(kind, env=1):
     return {'pass': 'o1\n', 'failout': 'o1\n', 'failexc': '', 'failcompile': '', 'faildirective': '', 'skipall': '', 'skippart': 'o2\n', 'expexc': '', 'comment': '', 'disabled': 'o1\n',
             'disabledfail': 'o1\n', 'needell': 'o1 and more\n', 'bind': 'o1\n', 'probe': 'False\n', 'rebind': '5\n', 'readg': '1 1\n',
-            'leaveskip': 'o1\n', 'leavereq': 'o1\n', 'reportstyle': 'o1\n', 'trail': 'a\n' if env == 1 else 'b\n', 'swapout': 'o1\n',
+            'leaveskip': 'o1\n', 'leavereq': 'o1\n', 'reportstyle': 'o1\n', 'trail': 'a\n' if env == 1 else 'b\n', 'swapout': 'o1\n', 'warns': 'o1\n',
             'filters': 'o1\n'}[kind]
 
 
